@@ -147,6 +147,7 @@ func runC07(w *World, r *Report) {
 	r.Min("R3", 11)
 	r.Min("R4", 3)
 	c07FrameLocalActions(w, r)
+	c07EncoderGuards(w, r)
 	r.Min("R5", 13)
 	r.Min("R6", 18)
 }
@@ -728,4 +729,65 @@ func isActionsTyped(v ssa.Value) bool {
 		t = p.Elem()
 	}
 	return strings.HasSuffix(t.String(), "action.Actions")
+}
+
+
+// c07EncoderGuards: what the fold produced is what the proxy gets: the
+// response encoders set status, body and headers unconditionally (an empty body
+// is a body), each optional request variable is guarded by its OWN field being
+// non-empty, and the request action is encoded after the early-response
+// remedies have edited it, never from a value computed before.
+func c07EncoderGuards(w *World, r *Report) {
+	for _, e := range []struct{ typ, method string }{{"ModifyResponseAction", "RespToSpoeActions"}, {"EarlyResponseAction", "ReqToSpoeActions"}, {"RetryRequestAction", "RespToSpoeActions"}} {
+		f := w.Fn(pkgActions, e.typ+"."+e.method)
+		if f == nil {
+			continue
+		}
+		n, cond := 0, 0
+		for _, c := range CallsIn(f, false, "action.Actions).SetVar") {
+			n++
+			if len(CondsOf(c.Block())) != 0 {
+				cond++
+			}
+		}
+		r.Check(n >= 2 && cond == 0, "R6", e.typ+"/every-variable-set-unconditionally", f.Pos(), "%d SetVar calls, %d of them conditional (an empty body or header set must still replace the provider's)", n, cond)
+	}
+	if f := w.Fn(pkgActions, "ModifyRequestAction.ReqToSpoeActions"); f != nil {
+		recv := "param:" + canonParam(f.Params[0])
+		ok, n := true, 0
+		var why []string
+		for _, c := range CallsIn(f, false, "action.Actions).SetVar") {
+			cs := CondsOf(c.Block())
+			if len(cs) == 0 {
+				continue
+			}
+			n++
+			// the carried field
+			var carried string
+			Derives(c.Common().Args[3], func(x ssa.Value) bool {
+				p := Path(x)
+				if strings.HasPrefix(p, recv+".") && !strings.Contains(p[len(recv)+1:], ".") {
+					carried = p[len(recv)+1:]
+				}
+				return false
+			})
+			for _, cd := range cs {
+				rel, isRel := NormCond(cd)
+				if !isRel || rel.Op != "!=" || Path(rel.L) != recv+"."+carried {
+					ok = false
+					why = append(why, carried+" guarded by "+trunc(Path(cd.V), 50))
+				}
+			}
+		}
+		r.Check(ok && n == 4, "R6", "ModifyRequestAction/optional-variable-guarded-by-its-own-field", f.Pos(), "each of the %d optional request variables is set exactly when the field it carries is non-empty %v", n, why)
+	}
+	if d := w.Fn(pkgRunner, "DispatchOnRequest"); d != nil {
+		enc := CallsIn(d, false, "ReqLunarAction).ReqToSpoeActions")
+		mod := CallsIn(d, false, "runner.obtainModifiedEarlyResponse")
+		ok := len(enc) == 1 && len(mod) == 1
+		if ok {
+			ok = !(enc[0].Block() == mod[0].Block() && domInstr(enc[0], mod[0])) && (enc[0].Block() == mod[0].Block() || !reachableFrom(enc[0].Block(), nil)[mod[0].Block()])
+		}
+		r.Check(ok, "R5", "DispatchOnRequest/request-action-encoded-after-early-response-remedies", d.Pos(), "ReqToSpoeActions is evaluated after obtainModifiedEarlyResponse (which edits the early response in place), not before it")
+	}
 }
